@@ -275,7 +275,11 @@ func (b *builder) build(s *shapeSpec, v reflect.Value, name string, salt int, sb
 					hasName = true
 				}
 			}
-			if hasName {
+			if i := strings.Index(key, "."); i > 0 && f.Tag != "" {
+				// a dotted tag designates one particular nested block: type.name (the name may hold , ; spaces and dots)
+				inner = key[i+1:]
+				fmt.Fprintf(sb, "%sdef %s %q {\n", indent, key[:i], inner)
+			} else if hasName {
 				// names with dots: the key of a nested block is type.name, cut at the first dot
 				inner = []string{"in0", "v1.2", "x.", ".y", "a.b.c"}[(salt+b.vi)%5]
 				fmt.Fprintf(sb, "%sdef %s %q {\n", indent, key, inner)
@@ -355,6 +359,9 @@ func c05Exec(cs fw.Case) *fw.Fail {
 				nm := ""
 				if hasName {
 					nm = fmt.Sprintf("%s%d", bname, i)
+					if c.Slice >= 3 && i == c.Slice-1 {
+						nm = bname + "0" // the last element repeats the first one's name
+					}
 					if bname == "" {
 						nm = ""
 					}
@@ -486,6 +493,13 @@ func c05Shapes(thorough bool) []shapeSpec {
 		{Fields: []fieldSpec{{Name: "Name", Kind: "string"}, {Name: "MaxLatency", Kind: "float64"}}},
 		{Fields: []fieldSpec{{Name: "Ab", Kind: "string"}, {Name: "In", Kind: "struct", Sub: &shapeSpec{Fields: []fieldSpec{{Name: "Deep", Kind: "bool"}, {Name: "Name", Kind: "string"}}}}}},
 		specOfNamed("Extras"),
+	}
+	// nested blocks designated by a dotted tag whose name part holds a comma, a space, dots
+	for _, tag := range []string{"in.v1", "endpoint.eu-west,backup", "in.a.b", "in.x y;z", "srv.a,b.c"} {
+		// (the nested struct has a Name field: a named block cannot be stored without one)
+		sub := &shapeSpec{Fields: []fieldSpec{{Name: "Deep", Kind: "bool"}, {Name: "Name", Kind: "string"}}}
+		out = append(out, shapeSpec{Fields: []fieldSpec{{Name: "Ab", Kind: "string"}, {Name: "Sub", Kind: "struct", Sub: sub, Tag: tag}, {Name: "Name", Kind: "string"}}})
+		out = append(out, shapeSpec{Fields: []fieldSpec{{Name: "Sub", Kind: "struct", Sub: sub, Tag: tag}, {Name: "X", Kind: "int"}}})
 	}
 	nameSets := [][]string{{"X"}, {"Ab"}, {"FooBar"}, {"A1"}, {"X", "Ab"}, {"FooBar", "A1"}, {"Ab", "X"}, {"X", "Ab", "FooBar"}, {"A1", "FooBar", "X"}}
 	for _, names := range nameSets {
